@@ -3,7 +3,7 @@
 From Coq Require Import Ascii String List Bool Arith ZArith NArith.
 From PTBase Require Import Exn PyStr PyNum PyVal Fmt FixedFormat.
 From Gen Require Import GenTables GenMulgrid.
-From P Require Import Flt Lines MulgridIO RoundTrip Header Idem Fields Natural Canon Feet.
+From P Require Import Flt Lines MulgridIO RoundTrip Header Idem Fields Natural Canon Feet Rounding RealIdem NatIdem Examples.
 Import ListNotations.
 
 (** ** finite obligations over the regenerated tables *)
@@ -115,12 +115,33 @@ Proof. exact grid_type_preserved. Qed.
 Print Assumptions grid_type_kept.
 
 (** ** second write; feet *)
-(** byte for byte: PARTIAL -- the hypothesis [idem_ok] asks, field by field, that the re-read
-    value formats to the same text (the 15-digit argument is not proved; the driver evaluates
-    [idem_ok] on every generated geometry); proved here: from field level to the whole file *)
+(** byte for byte, field level: if every field of every record re-formats to the same text
+    ([idem_ok], decidable, evaluated by the driver on every generated geometry) the whole file is
+    reproduced: sections present, their order, one line per surface column / well point, header *)
 Theorem mulgrid_write_idem_partial : forall g, wf g = true -> idem_ok g = true -> write (canon g) = write g.
 Proof. exact write_canon_idem. Qed.
 Print Assumptions mulgrid_write_idem_partial.
+(** the double arithmetic behind it: the digits written for a double [q1] (p = 1 or 2 decimals,
+    fewer than 10^9 units of the last one) are written again after text -> nearest double ->
+    times scale -> divided by scale (three correctly rounded operations), for any scale in [1/4, 1] *)
+Theorem digits_survive_the_trip : forall p s q1, (1 <= p <= 2)%Z -> scale_ok s = true -> (0 <= dm q1)%Z ->
+  (rN p (dm q1) (de q1) < 10 ^ 9)%Z ->
+  let q2 := dy_div (dy_mul (dy_of_dec (dneg q1) (Z.to_N (rN p (dm q1) (de q1))) (- p)) s) s in
+  (0 <= dm q2)%Z /\ dneg q2 = dneg q1 /\ rN p (dm q2) (de q2) = rN p (dm q1) (de q1).
+Proof. exact trip_digits. Qed.
+Print Assumptions digits_survive_the_trip.
+Theorem real_field_idem : forall f s x, ft f = Tf -> (1 <= prec f <= 2)%Z -> (width f <= 10)%nat -> scale_ok s = true ->
+  fits_field f (vreal (dy_div x s)) = true ->
+  res_str_eqb (fmt_field f (vreal (dy_div (rt_num f s s x) s))) (fmt_field f (vreal (dy_div x s))) = true.
+Proof. exact real_idem. Qed.
+Print Assumptions real_field_idem.
+(** byte for byte from arithmetic hypotheses ([nidem_ok]): every record value fits its field,
+    names are right-justified to the convention's length, every layer centre either prints non-zero
+    or is re-derived by the reader to the same text, and the header line re-formats to itself (the
+    two evaluated checks left: zero-printing centres, the header's %10.2e fields) *)
+Theorem mulgrid_write_idem : forall g, nidem_ok g = true -> write (canon g) = write g.
+Proof. exact write_idem. Qed.
+Print Assumptions mulgrid_write_idem.
 (** ... and the hypothesis cannot simply be dropped: with a layer whose centre prints as 0.00
     the reader re-derives the centre from the printed bottoms and the second file differs
     (recorded finding write:layer-centre-prints-zero, reproduced on the implementation) *)
@@ -139,6 +160,7 @@ Print Assumptions feet_roundtrip.
 (** ** the hypotheses are satisfiable: a concrete geometry in feet with a specified centre,
     a raised surface, a layer centred on 0.0 and a well *)
 Theorem hypotheses_satisfiable : wf ex_geo = true /\ nwf ex_geo = true /\ idem_ok ex_geo = true /\
-  h_unit (g_hdr ex_geo) = feet /\ str_eqb (h_type (canon_header (g_hdr ex_geo))) (s2l supported_type) = true.
-Proof. exact (conj ex_geo_wf (conj ex_geo_nwf (conj ex_geo_idem ex_geo_feet))). Qed.
+  (h_unit (g_hdr ex_geo) = feet /\ str_eqb (h_type (canon_header (g_hdr ex_geo))) (s2l supported_type) = true) /\
+  nidem_ok ex_geo2 = true.
+Proof. exact (conj ex_geo_wf (conj ex_geo_nwf (conj ex_geo_idem (conj ex_geo_feet ex_geo2_nidem)))). Qed.
 Print Assumptions hypotheses_satisfiable.
